@@ -22,7 +22,6 @@ EXTENDS Naturals, Integers, Sequences, FiniteSets, TLC, Json, IOUtils, Sequences
 CONSTANTS Prop
 
 TraceLog == ndJsonDeserialize(IOEnv.VERIF_TRACE)
-Devs == {"a1", "a2"}
 
 VARIABLES l,
           kinds,   \* sequence of [k, sub, past]: what entry e_i is (kind decoded from the entry) and what its writer held
@@ -55,17 +54,19 @@ MatchesRef(K, r) == LET S == SetOf(r.set) IN
                       /\ r.sw = RefSw(K, S) /\ r.seed = RefSeed(K, S)
                       /\ \A c \in DOMAIN r.cs : r.cs[c] = RefContact(K, S, c)
                       /\ \A g \in DOMAIN r.gj : r.gj[g] = RefGroup(K, S, g)
-StateOf(r) == <<r.sw, r.seed, r.cs, r.gj>>
+StateOf(r) == r.view      \* canonical rendering of everything the replica reports (driver)
 
 \* ---- clauses on the states reported after a step (K = the entry kinds including this step's entry)
 SameSetSameState(st) ==
-  /\ \A d \in Devs : \A m \in memo : m[1] = SetOf(st[d].set) => m[2] = StateOf(st[d])
-  /\ (SetOf(st["a1"].set) = SetOf(st["a2"].set)) => StateOf(st["a1"]) = StateOf(st["a2"])
+  /\ \A d \in DOMAIN st : \A m \in memo : m[1] = SetOf(st[d].set) => m[2] = StateOf(st[d])
+  /\ \A d1, d2 \in DOMAIN st : (SetOf(st[d1].set) = SetOf(st[d2].set)) => StateOf(st[d1]) = StateOf(st[d2])
+\* the log-order reference is defined for the account-group alphabet (replicas that report sw/seed/cs/gj)
+HasRef(r) == "sw" \in DOMAIN r
 C04OK(K, st) == /\ SameSetSameState(st)
-                /\ TotalK(K) => \A d \in Devs : MatchesRef(K, st[d])
-C07StatesOK(K, st) == TotalK(K) => \A d \in Devs : ContactsMatchRef(K, st[d])
+                /\ TotalK(K) => \A d \in DOMAIN st : HasRef(st[d]) => MatchesRef(K, st[d])
+C07StatesOK(K, st) == TotalK(K) => \A d \in DOMAIN st : HasRef(st[d]) => ContactsMatchRef(K, st[d])
 StatesOK(K, st) == CASE Prop = "C04" -> C04OK(K, st) [] Prop = "C07" -> C07StatesOK(K, st) [] OTHER -> TRUE
-Remember(st) == memo' = memo \cup {<<SetOf(st[d].set), StateOf(st[d])>> : d \in Devs}
+Remember(st) == memo' = memo \cup {<<SetOf(st[d].set), StateOf(st[d])>> : d \in DOMAIN st}
 
 \* ---- C07: the lifecycle table (DESIGN.md appendix A) on the state reported before the call
 Outcome(op, s) ==
@@ -98,7 +99,7 @@ MOp == /\ Consume("op")
             /\ (Prop = "C07" => C07OpOK)
             /\ StatesOK(K, Ev.st)
        /\ Remember(Ev.st) /\ prev' = Ev.st
-MMove == /\ (Consume("deliver") \/ Consume("reopen"))
+MMove == /\ (Consume("deliver") \/ Consume("rdeliver") \/ Consume("reopen"))
          /\ UNCHANGED kinds
          /\ StatesOK(kinds, Ev.st) /\ Remember(Ev.st) /\ prev' = Ev.st
 \* ---- C13
